@@ -575,6 +575,15 @@ theorem create_stream (a : CreateArgs R) (flt : Option Addr) (ms : MS R) (hm : m
         exact pres_ite _ (hinert _ _ _ (keepsRC_walRm _ _ _)) (pres_pure _ _)
   cases o <;> exact tail flt ms1 h1
 
+theorem nodup_of_map_nodup {α β : Type} (f : α → β) : ∀ (l : List α), (l.map f).Nodup → l.Nodup := by
+  intro l
+  induction l with
+  | nil => intro _; exact List.nodup_nil
+  | cons x rest ih =>
+    intro h
+    simp only [List.map_cons, List.nodup_cons] at h ⊢
+    exact ⟨fun hx => h.1 (List.mem_map_of_mem hx), ih h.2⟩
+
 theorem loadL_perm {l1 l2 : List (Wl R)} (h : l1.Perm l2) (n : String) : loadL l1 n = loadL l2 n := by
   induction h with
   | nil => rfl
@@ -600,7 +609,7 @@ theorem create_all_failed (a : CreateArgs R) (hnd : (a.plan.map (·.1)).Nodup) (
   refine ⟨⟨c6, c5, ?_, hmem⟩, fun c hc' => (c3 c hc').elim id (fun h' => by cases h')⟩
   funext m
   have hp : (run (create a) flt s).2.st.wls.Perm s.wls :=
-    (List.perm_ext_iff_of_nodup (List.Nodup.of_map _ hi.1) (List.Nodup.of_map _ h.1)).mpr hmem
+    (List.perm_ext_iff_of_nodup (nodup_of_map_nodup _ _ hi.1) (nodup_of_map_nodup _ _ h.1)).mpr hmem
   have e1 := hi.2.2 m
   have e0 := h.2.2 m
   unfold load at e1 e0
